@@ -59,7 +59,8 @@ TrProbe == /\ Is("Probe")
                    \cup (IF ToSet(E.listening) # ListeningOf(good) THEN {"listening-mismatch"} ELSE {})
                    \* the kernel accepted a connection on an address that should listen, but the server never handled it
                    \cup (IF \E x \in ToSet(E.unhandled) : <<x[1], x[2]>> \in ListeningOf(good) THEN {"connection-unhandled"} ELSE {})
-                   \cup (IF E.runners >= 0 /\ E.runners # (IF good = NoCfg THEN 0 ELSE 1) THEN {"leftover-runner"} ELSE {})
+                   \* more runConfig goroutines than generations that may run (how a live generation is run is the code's business)
+                   \cup (IF E.runners > (IF good = NoCfg THEN 0 ELSE 1) THEN {"leftover-runner"} ELSE {})
                    \cup {})
            /\ nprobe' = nprobe + 1
            /\ UNCHANGED <<good, nscen, cfgAt>>
